@@ -94,6 +94,12 @@ add("C11", "exploration",
     "Trusts the harness's edit generator to satisfy the premise (every content change bumps mtime); on-disk cases rely on the file system's ctime/inode behaviour.",
     "DESIGN.md section 5 C11")
 
+add("C12", "exploration",
+    "runtime monitor with reference models: copy across generated repository pairs (full reads compared, destination check, idempotence from the storage log), merge vs a reference merge on source models, rewrite vs (model minus excluded paths) with an own matcher, repair snapshots (zero storage events when undamaged; kept files byte-identical after pack loss)",
+    "Held on the generated cases of each sub-check. Sampling.",
+    "Trusts the harness's reference merge (newest mtime wins, directories merged; tie cases skipped) and its matcher for the three generated pattern forms.",
+    "DESIGN.md section 5 C12")
+
 NOT_YET = "check not built yet (work in progress in this round)"
 
 def main():
